@@ -67,6 +67,10 @@ TECHNIQUE = "Lean 4 proof (greedy-assignment induction) + differential correspon
 # state generation
 # ----------------------------------------------------------------------------------------------
 
+import threading as _threading
+_ENV_LOCK = _threading.Lock()
+
+
 def _unit_bytes(w, part) -> int:
     """bytes of one write unit, computed independently of the partitioner's own accounting for tensors (element count x
     element size of the piece, whatever its serializer); objects keep the partitioner's estimate (sys.getsizeof)"""
@@ -101,8 +105,12 @@ def _gen_partition_case(rng, W: int) -> Dict[str, Any]:
             it["how"] = rng.choice(["shape", "dtype"])
         items.append(it)
     globs = rng.choice([["app/*"], ["**"]] + [None] * 6)
-    return {"W": W, "items": items, "globs": globs, "chunk": rng.choice([8, 16, 40, 64, 1000]),
+    case = {"W": W, "items": items, "globs": globs, "chunk": rng.choice([8, 16, 40, 64, 1000]),
             "private_rank_only": rng.random() < 0.2}
+    if W > 1 and rng.random() < 0.12:
+        # ranks configured with different max-chunk-size overrides: the same replicated tensor is chunked differently
+        case["chunk_per_rank"] = [rng.choice([8, 16, 40, 64]) for _ in range(W)]
+    return case
 
 
 def _build_state(case, rank: int):
@@ -263,12 +271,21 @@ def _partition_one(ctx: Ctx, case, suite="partition", report=True):
         _, flattened = flatten(_build_state(case, rank), prefix="app")
         repl = Snapshot._calculate_replicated_entries(flattened, set(globs), pgw)
         entries, wrs, prims = {}, {}, {}
-        for p, obj in flattened.items():
-            e, w = prepare_write(obj=obj, logical_path=p, rank=rank, replicated=p in repl)
-            if isinstance(e, PrimitiveEntry):
-                prims[p] = e
-            else:
-                entries[p], wrs[p] = e, w
+        per_rank_chunk = (case.get("chunk_per_rank") or [None] * W)[rank]
+        # the chunk-size knob is an environment variable: ranks may run with different values.  The env is process-wide
+        # here, so a rank with its own value prepares its write requests under a lock (prepare_write does no collective).
+        import contextlib
+        cm = contextlib.ExitStack()
+        if per_rank_chunk is not None:
+            cm.enter_context(_ENV_LOCK)
+            cm.enter_context(sim.knobs(chunk=per_rank_chunk))
+        with cm:
+            for p, obj in flattened.items():
+                e, w = prepare_write(obj=obj, logical_path=p, rank=rank, replicated=p in repl)
+                if isinstance(e, PrimitiveEntry):
+                    prims[p] = e
+                else:
+                    entries[p], wrs[p] = e, w
         new_entries, new_wrs = partition_write_reqs(entries=entries, write_reqs=wrs, pg=pgw)
         return {"flat": [(p, is_sharded(o)) for p, o in flattened.items()], "repl": sorted(repl), "entries": entries, "prims": prims,
                 "sizes": {p: [_unit_bytes(w, part) for w in ws] for p, ws in wrs.items()},
@@ -318,6 +335,32 @@ def _partition_one(ctx: Ctx, case, suite="partition", report=True):
                                  {"rank": r}, suite=suite)
             if match(p) and p not in everywhere:
                 ctx.count("partition.glob-match-missing-on-a-rank")
+
+    # ---- whatever the ranks' chunk layouts: the pieces of a replicated chunked tensor kept by all ranks together tile it
+    try:
+        from torchsnapshot.manifest import ChunkedTensorEntry as _CTE
+        for p in res[0][1]["repl"]:
+            ivs = []
+            rows = None
+            for r in range(W):
+                e = res[r][1]["new_entries"].get(p)
+                if isinstance(e, _CTE):
+                    rows = e.shape[0] if e.shape else 0
+                    ivs += [(c.offsets[0], c.offsets[0] + c.sizes[0], r) for c in e.chunks]
+            if rows is None or not ivs:
+                continue
+            ivs.sort()
+            pos, ok = 0, True
+            for (a, b, r) in ivs:
+                if a != pos:
+                    ok = False
+                    break
+                pos = b
+            if (not ok or pos != rows) and report:
+                ctx.fail("replicated-chunks-do-not-tile", f"{p}: the chunks kept by all ranks together do not cover rows [0,{rows}) exactly once: {ivs[:8]}",
+                         inp, {"path": p, "intervals": ivs[:12]}, suite=suite)
+    except (KeyError, IndexError, TypeError, AttributeError):
+        pass
 
     # ---- the partitioner's inputs and result, from the collective traffic
     gathers = [pl for _, pl in _collective_payloads(world, "all_gather_object")
